@@ -151,6 +151,15 @@ func c09Pairs(c *core.Ctx) []*c09Pair {
 	add("blank->2 parts", 512, 10*MiB, nil, a)
 	add("5->1 parts", 512, 12*MiB, genGPT(r, ds(12*MiB, 512), 512, 5, nil, true), genGPT(r, ds(12*MiB, 512), 512, 1, nil, true))
 	add("sparse indices 12 parts", 512, 16*MiB, genGPT(r, ds(16*MiB, 512), 512, 4, []int{1, 5, 9, 128}, true), genGPT(r, ds(16*MiB, 512), 512, 12, nil, true))
+	// one partition of six deleted, the others renumbered: every later partition keeps its GUID but moves
+	// to the previous slot (slots 4 and 5 lie in different sectors of the entry array)
+	six := genGPT(r, ds(12*MiB, 512), 512, 6, nil, true)
+	five := cloneGPT(six)
+	five.Partitions = append(five.Partitions[:1], five.Partitions[2:]...)
+	for i, p := range five.Partitions {
+		p.Index = i + 1
+	}
+	add("6->5 parts, second deleted, rest renumbered with their GUIDs", 512, 12*MiB, six, five)
 	// tables written without a protective MBR (the option is off by default): LBA 0 never carries one
 	np := func(t *gpt.Table) *gpt.Table { x := cloneGPT(t); x.ProtectiveMBR = false; return x }
 	add("no protective MBR, 2->3 parts", 512, 10*MiB, np(a), np(b))
